@@ -69,7 +69,8 @@ class DataIndexView(BaseDataIndex):
                 self.value = args[0] if args else None
 
             def build(self, stack):
-                if not self.key or not shallow:
+                # NOTE: shallow stops below an entry, not at the first level
+                if not self.key or not shallow or self.value is None:
                     for child in self.children:
                         stack.append(child)
                 return self.key, self.value
